@@ -529,7 +529,11 @@ static void check_h_reuse(vmc::Ctx& ctx, const World& w, const Stream& s0, const
       if (changed.empty()) changed = k ? "nothing" : "fresh";
       // key: a switch between time-frame mode and event-count mode is one class whatever else changed (one defect there = one line)
       std::string keychanged = changed;
-      if (k && (runs[k - 1].m.n > 0) != (r.m.n > 0)) keychanged = r.m.n > 0 ? "mode:time_frames->event_count" : "mode:event_count->time_frames";
+      {
+        std::string seq; bool switched = false;
+        for (size_t i = 0; i <= k; ++i) { seq += runs[i].m.n > 0 ? "event_count" : "time_frames"; if (i < k) seq += "->"; if (i && (runs[i].m.n > 0) != (runs[i - 1].m.n > 0)) switched = true; }
+        if (switched) keychanged = "mode:" + seq;
+      }
       const std::string keytail = ";run=" + vmc::str(k + 1) + ";changed=" + keychanged + ";tof=" + (w.tof ? "1" : "0");
       ctx.count("states");
       ctx.count("traces_validated_against_impl");
@@ -1152,6 +1156,21 @@ static std::string changed_str(const RSet& p, const RSet& c, int maxseg)
   if (c.act) add(ACT_NAME[c.act]);
   return s.empty() ? "nothing" : s;
 }
+// for the violation key: ONE changed dimension by a fixed priority (one defect = few keys); the complete list is in the message
+static std::string primary_change(const RSet& p, const RSet& c, int maxseg)
+{
+  if (p.ms != c.ms)
+    {
+      const int a = p.ms < 0 ? maxseg : p.ms, b = c.ms < 0 ? maxseg : c.ms;
+      return std::string("max_segment:") + (b > a ? "widen" : b < a ? "narrow" : "same_range");
+    }
+  if (c.act == 1 || c.act == 2) return ACT_NAME[c.act];
+  if (p.N != c.N) return "num_subsets";
+  if (p.us != c.us) return "use_subset_sensitivities";
+  if (p.cache != c.cache) return "cache_size";
+  if (c.act) return ACT_NAME[c.act];
+  return "nothing";
+}
 
 static void check_reuse(vmc::Ctx& ctx, GWorld& G, const RCfg& c, const std::vector<RSet>& hist)
 {
@@ -1181,7 +1200,7 @@ static void check_reuse(vmc::Ctx& ctx, GWorld& G, const RCfg& c, const std::vect
       const RSet& r = hist[k];
       const std::string stage = vmc::str(k + 1);
       const std::string changed = k == 0 ? std::string("fresh") : changed_str(hist[k - 1], r, w.g.max_seg);
-      const std::string keytail = ";set_up=" + stage + ";changed=" + changed + ";build=" + BUILD + ";tof=" + (w.tof ? "1" : "0");
+      const std::string keytail = ";set_up=" + stage + ";changed=" + (k == 0 ? std::string("fresh") : primary_change(hist[k - 1], r, w.g.max_seg)) + ";build=" + BUILD + ";tof=" + (w.tof ? "1" : "0");
       std::string what;
       bool failed = false;
       long setters = 0;
